@@ -17,6 +17,7 @@ import (
 	"runtime"
 	"sort"
 	"strings"
+	"sync"
 	"time"
 )
 
@@ -29,6 +30,7 @@ const (
 	VPanic    = "PANIC"
 	VFuel     = "FUEL"
 	VHarness  = "HARNESS" // harness misuse / nondeterminism; never a property verdict
+	VPruned   = "PRUNED"  // state seen before (unbounded search with state keys); not a property verdict
 )
 
 // Base strategies (who runs at a blocking point when no deviation is taken).
@@ -46,6 +48,15 @@ type Config struct {
 	FuelLimit     int // loop iterations between two visible operations
 	Trace         bool
 	ReverseCancel bool // cancel child contexts in reverse creation order
+	// SeenState, if set, is asked after every performed operation (outside the replayed prefix) whether the
+	// execution's happens-before state has been reached before; true ends the execution with verdict PRUNED.
+	// The key hashes, per thread, the sequence of operations it performed (with the objects and the results) and,
+	// per modelled object, the sequence of operations performed on it: two interleavings that order independent
+	// operations differently reach the same key.
+	SeenState func(key uint64) bool
+	// Replaying, if set, reports whether the chooser is still inside the prefix it was given.
+	Replaying func() bool
+	MaxTicks  int // >0: at most this many non-idle (early) environment ticks are offered as alternatives
 	// OnRendezvous, if set, observes every unbuffered hand-off (sender role, receiver role, channel name).
 	OnRendezvous func(sender, receiver, ch string)
 }
@@ -139,11 +150,14 @@ type Thread struct {
 	npcs       int
 	single     [1]scase
 	fn         func()
+	hist       uint64 // hash of the operations this thread performed so far
+	roleHash   uint64
 	curTok     *tok   // race variant: token released when the current operation was announced
 	acq        []*tok // race variant: tokens to acquire when the operation has completed
 }
 
 type core struct {
+	hist     uint64 // hash of the operations performed on this channel so far
 	id       int
 	name     string
 	cap      int
@@ -231,6 +245,15 @@ type Sched struct {
 	trace    []string
 	ctxSeq   int
 	tdTok    *tok // race variant: everything every thread did before its last announcement
+	cores    []*core
+	objs     []*uint64 // histories of WaitGroups and Mutexes touched in this execution
+	early    int       // early ticks taken
+	woken    []*Thread // threads whose blocked operation was completed by the operation being performed
+	gwg      sync.WaitGroup // real: every goroutine started for this execution
+	nextID   int
+	nthreads int
+	doneHash uint64 // exited threads' contribution to the state key
+	roles    map[string]int
 }
 
 // S is the scheduler of the execution in progress (nil outside Run).
@@ -260,11 +283,13 @@ func Run(cfg Config, ch Chooser, main func()) *Result {
 	res := &Result{
 		Verdict: s.verdict, Msg: s.msg, Stack: s.stack, Steps: s.steps, Points: s.points,
 		Choices: s.choices, Hash: s.hash, IdleTicks: s.idle, Ticks: s.ticks,
-		Threads: len(s.threads), MaxLive: s.maxLive, MainDone: s.mainDone, Trace: s.trace,
-		Roles: map[string]int{},
+		Threads: s.nthreads, MaxLive: s.maxLive, MainDone: s.mainDone, Trace: s.trace,
+		Roles: s.roles,
+	}
+	if res.Roles == nil {
+		res.Roles = map[string]int{}
 	}
 	for _, t := range s.threads {
-		res.Roles[t.Role]++
 		if t.state != tsDone && t != s.aborter {
 			res.Blocked = append(res.Blocked, s.describe(t))
 		}
@@ -282,12 +307,21 @@ func Run(cfg Config, ch Chooser, main func()) *Result {
 		t.wake <- struct{}{}
 		<-t.done
 	}
+	s.gwg.Wait() // every goroutine of this execution has ended (also those that left the table when they exited)
 	S = nil
 	return res
 }
 
 func (s *Sched) newThread(role string, fn func()) *Thread {
-	t := &Thread{ID: len(s.threads), Role: role, wake: make(chan struct{}, 1), done: make(chan struct{}), fn: fn}
+	t := &Thread{ID: s.nextID, Role: role, wake: make(chan struct{}, 1), done: make(chan struct{}), fn: fn}
+	s.nextID++
+	s.nthreads++
+	if s.roles == nil {
+		s.roles = map[string]int{}
+	}
+	s.roles[role]++
+	t.roleHash = strHash(role)
+	t.hist = t.roleHash
 	t.state = tsReady
 	t.op.kind = opStart
 	t.readySince = s.steps
@@ -296,11 +330,13 @@ func (s *Sched) newThread(role string, fn func()) *Thread {
 	if s.live > s.maxLive {
 		s.maxLive = s.live
 	}
+	s.gwg.Add(1)
 	go t.run(s)
 	return t
 }
 
 func (t *Thread) run(s *Sched) {
+	defer s.gwg.Done()
 	defer close(t.done)
 	defer func() {
 		r := recover()
@@ -327,6 +363,18 @@ func (t *Thread) run(s *Sched) {
 		}
 		t.state = tsDone
 		s.live--
+		// exited threads leave the table: sequential chunks run thousands of containers in one execution
+		for i, u := range s.threads {
+			if u == t {
+				for j := i; j+1 < len(s.threads); j++ {
+					s.threads[j] = s.threads[j+1]
+				}
+				s.threads[len(s.threads)-1] = nil
+				s.threads = s.threads[:len(s.threads)-1]
+				break
+			}
+		}
+		s.doneHash = hmix(s.doneHash, t.roleHash, uint64(t.ID))
 		if t.ID == 0 {
 			s.mainDone = true
 			s.finish(t, VNone, "", "")
@@ -500,6 +548,9 @@ func (s *Sched) wakeWith(w *waiter, val interface{}, ok bool, panicMsg string) {
 		}
 	}
 	o.chosen, o.val, o.ok, o.panicMsg = w.caseIdx, val, ok, panicMsg
+	if s.cfg.SeenState != nil {
+		s.woken = append(s.woken, t)
+	}
 	o.kind = opResume
 	o.cases = nil
 	t.state = tsReady
@@ -608,7 +659,7 @@ func (s *Sched) alternatives(self *Thread) []alt {
 			}
 		}
 	}
-	if s.nextTimer() != nil {
+	if s.nextTimer() != nil && (len(alts) == 0 || s.cfg.MaxTicks == 0 || s.early < s.cfg.MaxTicks) {
 		alts = append(alts, alt{tick: true})
 	}
 	return alts
@@ -696,14 +747,27 @@ func (s *Sched) dispatch(self *Thread) {
 					s.abortHere(self, VStarved, msg)
 				}
 			}
+			if len(alts) > 1 {
+				s.early++
+			}
 			s.mix(uint64(1 << 40))
 			if s.cfg.Trace {
 				s.trace = append(s.trace, fmt.Sprintf("%d: tick", s.steps))
 			}
-			s.fire(s.nextTimer())
+			tm := s.nextTimer()
+			if tm.c != nil {
+				tm.c.hist = hmix(tm.c.hist, 0xfeed, 7)
+			}
+			s.fire(tm)
+			if s.cfg.SeenState != nil && s.pruneHere(self) {
+				return
+			}
 			continue
 		}
 		s.perform(a)
+		if s.cfg.SeenState != nil && s.pruneHere(self) {
+			return
+		}
 		next := a.t
 		next.state = tsRunning
 		s.cur = next
@@ -737,6 +801,15 @@ func (s *Sched) perform(a alt) {
 	t := a.t
 	o := &t.op
 	var cid int
+	okind := o.kind
+	var ocore *core
+	owg, omu := o.wg, o.mu
+	if (o.kind == opChan || o.kind == opSelect) && a.caseIdx >= 0 {
+		ocore = o.cases[a.caseIdx].c
+	}
+	if o.kind == opClose {
+		ocore = o.c
+	}
 	if s.cfg.Trace {
 		s.trace = append(s.trace, fmt.Sprintf("%d: T%d[%s] %s", s.steps, t.ID, t.Role, s.opString(t, a.caseIdx)))
 	}
@@ -846,6 +919,9 @@ func (s *Sched) perform(a alt) {
 				w.state = tsReady
 				w.op.kind = opResume
 				w.readySince = s.steps
+				if s.cfg.SeenState != nil {
+					s.woken = append(s.woken, w)
+				}
 				if raceOn {
 					w.acq = appendToks(w.acq, wg.toks)
 				}
@@ -888,6 +964,99 @@ func (s *Sched) perform(a alt) {
 		s.wakeLockers(o.mu)
 	}
 	s.mix(uint64(t.ID)<<32 | uint64(o.kind)<<24 | uint64(cid&0xffff)<<4 | uint64(a.caseIdx&0xf))
+	if s.cfg.SeenState != nil {
+		s.recordHist(t, a, okind, ocore, owg, omu)
+	}
+}
+
+// recordHist extends the per-thread and per-object operation histories (state keys).
+func (s *Sched) recordHist(t *Thread, a alt, kind opKind, k *core, wg *WaitGroup, mu *Mutex) {
+	var oh *uint64
+	var oid uint64
+	switch {
+	case k != nil:
+		oh, oid = &k.hist, uint64(k.id)+1
+	case wg != nil:
+		oh, oid = &wg.hist, 1<<20
+	case mu != nil:
+		oh, oid = &mu.hist, 1<<21
+	}
+	res := uint64(a.caseIdx+2)<<8 | uint64(kind)
+	if t.op.ok {
+		res |= 1 << 16
+	}
+	if t.op.panicMsg != "" {
+		res |= 1 << 17
+	}
+	if oh != nil {
+		if *oh == 0 {
+			s.objs = append(s.objs, oh)
+			if wg != nil || mu != nil {
+				oid += uint64(len(s.objs))
+			}
+			*oh = oid * 0x9e3779b97f4a7c15
+		}
+		*oh = hmix(*oh, t.hist, res)
+		t.hist = hmix(t.hist, *oh, res)
+		for _, w := range s.woken {
+			w.hist = hmix(w.hist, *oh, uint64(w.op.chosen+2)<<8|0x77)
+		}
+	} else {
+		t.hist = hmix(t.hist, oid, res)
+	}
+	s.woken = s.woken[:0]
+}
+
+func hmix(h, a, b uint64) uint64 {
+	h ^= a + 0x9e3779b97f4a7c15 + (h << 6) + (h >> 2)
+	h *= 0xff51afd7ed558ccd
+	h ^= b + (h >> 33)
+	h *= 0xc4ceb9fe1a85ec53
+	return h ^ (h >> 29)
+}
+
+func strHash(s string) uint64 {
+	h := uint64(1469598103934665603)
+	for i := 0; i < len(s); i++ {
+		h ^= uint64(s[i])
+		h *= 1099511628211
+	}
+	return h
+}
+
+// stateKey combines the histories of all live threads (with their scheduling state) and of all objects.
+func (s *Sched) stateKey() uint64 {
+	k := s.doneHash
+	for _, t := range s.threads {
+		if t.state == tsDone {
+			continue
+		}
+		st := uint64(t.state)
+		if t.state == tsRunning {
+			st = tsReady
+		}
+		k += hmix(t.hist, uint64(t.ID)<<8|st, uint64(t.op.kind))
+	}
+	for _, oh := range s.objs {
+		k += hmix(*oh, 0xbeef, 1)
+	}
+	return hmix(k, uint64(s.nthreads), uint64(s.early))
+}
+
+// pruneHere asks the explorer whether the state just reached is known; if so the execution ends.
+func (s *Sched) pruneHere(self *Thread) bool {
+	if s.cfg.Replaying != nil && s.cfg.Replaying() {
+		return false
+	}
+	if !s.cfg.SeenState(s.stateKey()) {
+		return false
+	}
+	if self == nil {
+		s.finish(nil, VPruned, "", "")
+		return true
+	}
+	s.abortHere(self, VPruned, "")
+	return true
 }
 
 func (s *Sched) wakeLockers(mu *Mutex) {
